@@ -23,7 +23,7 @@ const A_FIELDS: &[u8; 10] = b"A: \r\n\t\xff1,c";
 const A_CHUNK: &[u8; 10] = b"01aF;\r\n x\xff";
 
 // cfg bytes: [method index, flags (1 v10, 2 expect, 4 despite, 8 conn close, 16 look, 32 stop), framing, follow]
-const COMBOS: [Combo; 13] = [
+const COMBOS: [Combo; 14] = [
     Combo { name: "await100/start", cfg: [2, 2 | 16, 0, 0], prefix: b"", alphabet: A_START },
     Combo { name: "await100/status", cfg: [3, 2 | 16, 1, 0], prefix: b"HTTP/1.1 ", alphabet: A_STATUS },
     Combo { name: "await100/after-100-line", cfg: [2, 2 | 16 | 1, 2, 0], prefix: b"HTTP/1.1 100 Continue\r\n", alphabet: A_FIELDS },
@@ -36,6 +36,7 @@ const COMBOS: [Combo; 13] = [
     Combo { name: "chunked/in-data", cfg: [0, 0, 0, 0], prefix: b"HTTP/1.1 200 OK\r\nTransfer-Encoding: chunked\r\n\r\n3\r\nab", alphabet: A_CHUNK },
     Combo { name: "chunked/ending", cfg: [4, 32, 0, 0], prefix: b"HTTP/1.1 301 M\r\nLocation: http://[::1\r\nTransfer-Encoding: chunked\r\n\r\n1\r\na\r\n0\r\n", alphabet: A_CHUNK },
     Combo { name: "chunked/huge-size", cfg: [0, 0, 0, 0], prefix: b"HTTP/1.1 200 OK\r\nTransfer-Encoding: chunked\r\n\r\n7fffffffffffff", alphabet: A_CHUNK },
+    Combo { name: "chunked/max-size", cfg: [0, 32, 0, 0], prefix: b"HTTP/1.1 200 OK\r\nTransfer-Encoding: chunked\r\n\r\nffffffffffffff", alphabet: A_CHUNK },
     Combo { name: "length/body", cfg: [0, 1, 0, 0], prefix: b"HTTP/1.1 200 OK\r\nContent-Length: 3\r\n\r\n", alphabet: A_CHUNK },
 ];
 
@@ -417,9 +418,9 @@ pub fn replay_artifact(path: &std::path::Path) -> Result<String, String> {
 
 pub static DEF: PropDef = PropDef {
     id: "C12",
-    rule: "enumeration 'alphabet': 13 (state, valid prefix) combinations - awaiting 100 / receiving the head at the start, after 'HTTP/1.1 ', \
+    rule: "enumeration 'alphabet': 14 (state, valid prefix) combinations - awaiting 100 / receiving the head at the start, after 'HTTP/1.1 ', \
 after a complete status line (100, 403, 200), after a complete Location line; chunked body at a size line, inside chunk data, after the \
-last-chunk line (on a redirect with an unresolvable Location), after 14 hex digits of a size line; length-delimited body - each followed by EVERY string of length 0..6 \
+last-chunk line (on a redirect with an unresolvable Location), after 14 hex digits of a size line ('7fffffffffffff' and 'ffffffffffffff'); length-delimited body - each followed by EVERY string of length 0..6 \
 (thorough 0..7) over a 10-symbol protocol alphabet for that state (e.g. '0 1 a F ; CR LF SP x 0xFF'), offered one-shot and byte by \
 byte with 1..2-byte output buffers. random 'mutants': a valid exchange from C01's generator with 0..4 grammar-aware mutations (bit flip, \
 deletion, duplication, splice from a second exchange, token insertion at line starts - CRLF, lone CR / LF, 18 hex digits, Connection: \
